@@ -375,7 +375,7 @@ impl<'a> Walker<'a> {
         }
         // long prefixes (pre-rolled games, C04): remember every observable before each prefix ply
         // so that the whole game can be unwound afterwards
-        let deep = self.cfg.flags & (F04 | F12 | F16) != 0 && item.prefix.len() > 16;
+        let deep = self.cfg.flags & (F04 | F05 | F12 | F16) != 0 && item.prefix.len() > 16;
         if item.prefix.len() > 64 {
             // what is examined here depends on the HISTORY the board carries, not on the position: a
             // generator that has already listed these positions (for a game of another length)
@@ -403,7 +403,7 @@ impl<'a> Walker<'a> {
                     Ok(Ok(())) => {}
                     other => {
                         let d = format!("undoing ply {} of a {}-ply game: {:?}", k + 1, applied.len(), other.map(|r| r.map_err(|e| e.to_string())));
-                        for (fl, pr) in [(F04, "C04"), (F12, "C12"), (F16, "C16")] {
+                        for (fl, pr) in [(F04, "C04"), (F05, "C05"), (F12, "C12"), (F16, "C16")] {
                             if self.cfg.flags & fl != 0 {
                                 self.viol(pr, "undo-failed(long-game)", item, &[], d.clone());
                             }
@@ -417,6 +417,10 @@ impl<'a> Walker<'a> {
                     let d = format!("after undoing ply {} of a {}-ply game (and a depth-{} tree at its end): {}", k + 1, applied.len(), item.remaining, snaps[k].diff(&now));
                     if self.cfg.flags & F04 != 0 {
                         self.viol("C04", "undo-does-not-restore(long-game)", item, &[], d.clone());
+                    }
+                    // C05: so is the key
+                    if self.cfg.flags & F05 != 0 && now.key != snaps[k].key {
+                        self.viol("C05", "key-differs-after-unwinding(long-game)", item, &[], d.clone());
                     }
                     // C12: the rights held while unwinding a game are the ones held on the way in
                     if self.cfg.flags & F12 != 0 && now.rights != snaps[k].rights {
@@ -1331,30 +1335,62 @@ pub fn preroll_game_opening(opening: &[&str], n: usize) -> Vec<Move> {
 }
 
 pub fn preroll_game_from(root: &Pos, n: usize) -> Vec<Move> {
+    preroll_game_special(root, n, None).expect("preroll")
+}
+
+/// The shuffle game, optionally with one "special" move as ply number `special.0` (1-based):
+/// kind 0 = double step of the c-pawn (c2c4 / c7c5, sets an en-passant target that the reply must
+/// clear), kind 1 = the king's rook steps to the g-file (h1g1 / h8g8, a castling right is lost).
+/// None when the special move is not legal at that ply.  Games longer than 1000 plies let the
+/// half-move clock run to 150 between pawn moves (24 single pawn steps are available).
+pub fn preroll_game_special(root: &Pos, n: usize, special: Option<(usize, u8)>) -> Option<Vec<Move>> {
     let mut p = root.clone();
     let mut out = Vec::new();
-    let resets = ["a2a3", "a7a6", "h2h3", "h7h6", "a3a4", "a6a5", "h3h4", "h6h5", "b2b3", "b7b6", "g2g3", "g7g6"];
+    let resets = [
+        "a2a3", "a7a6", "h2h3", "h7h6", "a3a4", "a6a5", "h3h4", "h6h5", "b2b3", "b7b6", "g2g3", "g7g6", "b3b4", "b6b5", "g3g4", "g6g5", "d2d3", "d7d6", "e2e3", "e7e6", "d3d4", "d6d5", "e3e4", "e6e5",
+    ];
+    let threshold = if n > 1000 { 150 } else { 80 };
     let mut next_reset = 0;
     while out.len() < n {
         let legal = p.legal_moves();
         let mut pick: Option<Move> = None;
-        if p.halfmove >= 80 && next_reset < resets.len() {
+        if let Some((at, kind)) = special {
+            if out.len() + 1 == at {
+                let want = match (kind, p.stm) {
+                    (0, Side::White) => "c2c4",
+                    (0, Side::Black) => "c7c5",
+                    (_, Side::White) => "h1g1",
+                    (_, Side::Black) => "h8g8",
+                };
+                pick = Some(legal.iter().find(|m| uci(m) == want).copied()?);
+            }
+        }
+        if pick.is_none() && p.halfmove >= threshold && next_reset < resets.len() {
             let want = resets[next_reset];
             let white_move = want.as_bytes()[1] < b'5';
             if white_move == (p.stm == Side::White) {
                 pick = legal.iter().find(|m| uci(m) == want).copied();
-                if pick.is_some() {
-                    next_reset += 1;
-                }
+                // a step that is not available in this game (blocked file) is skipped
+                next_reset += 1;
             }
         }
-        let m = pick.unwrap_or_else(|| {
-            // knight shuffle: g1<->f3 for White, g8<->f6 for Black
-            let (a, b) = if p.stm == Side::White { ("g1f3", "f3g1") } else { ("g8f6", "f6g8") };
-            *legal.iter().find(|m| uci(m) == a || uci(m) == b).expect("preroll: knight shuffle not available")
-        });
+        let m = match pick {
+            Some(m) => m,
+            None => {
+                // knight shuffle: the king's knight out and back; the queen's knight when that is not possible
+                let cands: [&str; 4] = if p.stm == Side::White { ["g1f3", "f3g1", "b1c3", "c3b1"] } else { ["g8f6", "f6g8", "b8c6", "c6b8"] };
+                let mut found = None;
+                for c in cands {
+                    if let Some(m) = legal.iter().find(|m| uci(m) == c) {
+                        found = Some(*m);
+                        break;
+                    }
+                }
+                found.expect("preroll: knight shuffle not available")
+            }
+        };
         p = p.make(&m);
         out.push(m);
     }
-    out
+    Some(out)
 }
